@@ -62,10 +62,10 @@ Definition Qle_b (a b : Q) : bool := Qle_bool a b.
 Definition simple_has_jordan (self j : jordan) (boundary : bool) : res bool :=
   if negb (forallb (fun p => simple_has_point self p boundary) (points j 0)) then Ok false
   else
-    do inters <- jordan_and j self;
+    do inters <- intersection j self false true;
     Ok (forallb (fun a_s =>
           let '(a, s) := a_s in
-          let us := concat (map (fun r : irow =>
+          let us := 0 :: 1 :: concat (map (fun r : irow =>
                       let '(a', _, o) := r in
                       match o with
                       | Some (u, _) => if Nat.eqb a' a then [u] else []
@@ -102,7 +102,9 @@ Definition simple_has_simple (self other : jordan) : res bool :=
     else if Qlt_bool areaB areaA then Ok false
     else
       do x <- simple_has_jordan self other true;
-      Ok x
+      if negb x then Ok false
+      else if Qlt_bool 0 areaA then Ok true
+      else do y <- simple_has_jordan other self false; Ok (negb y)   (* both unbounded: compare the holes *)
   end.
 (* SimpleShape._contains_shape(ConnectedShape): temporary inversion *)
 Definition simple_has_connected (self : jordan) (subs : list jordan) : res bool :=
